@@ -202,3 +202,287 @@ def register(reg):
                   'never_nsc': lambda result, self, which: result != 'NSC'},
         native_oracle=metar_msg_oracle,
     ))
+    register_metarize(reg)
+    register_metarize2(reg)
+
+
+# =============================================================================================
+# metarize() and its helpers: the table invariant TI is the *postcondition* of metarize
+# =============================================================================================
+from pyvc.contracts import ListOf
+from pyvc.values import SList, Opaque
+from pyvc.pandas_model import fresh_column
+from .spec import okta_of, p2o
+
+TABLE_COLS = ['n_hits', 'perc', 'okta', 'height_base', 'height_mean', 'height_std', 'height_min', 'height_max',
+              'thickness', 'fluffiness', 'code', 'significant', 'cluster_id']
+
+
+def _unset_table(n, which, defined=()):
+    cols = {}
+    names = TABLE_COLS + (['isolated'] if which == 'slices' else []) + (['ncomp'] if which == 'groups' else [])
+    for c in names:
+        cols[c] = fresh_column(n, c, 'unset')
+    return STable(n, cols)
+
+
+class ChunkForMetarize(Spec):
+    """abstract chunk as seen by metarize and its helpers.  Ghost state: N = number of distinct set ids >= 0 of
+    `which` (n_<which>), max_hits = number of distinct (ceilo, dt) measurements (max_hits_per_layer >= 1 because
+    construction refuses empty frames), nhits[i] = distinct (ceilo, dt) measurements among the members of set i."""
+
+    def __init__(self, which, with_pdf=None):
+        self.which = which
+
+    def make(self, name, ctx):
+        N = z3.Int('N')
+        ctx.assume(N >= 0)
+        ctx.len_vars.append(N)
+        mh = z3.Int('max_hits')
+        nh = z3.Array('nhits', z3.IntSort(), z3.IntSort())
+        max0, max8 = z3.Int('MAX_HITS_OKTA0'), z3.Int('MAX_HOLES_OKTA8')
+        ctx.assume(mh >= 1)
+        ctx.assume(Forall(0, N, lambda i: And(nh[i] >= 0, nh[i] <= mh), name='nh'))
+        prms = {'MAX_HITS_OKTA0': SInt(max0), 'MAX_HOLES_OKTA8': SInt(max8), 'MSA': None}
+        fields = {'_prms': prms, '_data': Opaque('chunk data'), '_slices': None, '_groups': None, '_layers': None,
+                  '_clouds_above_msa_buffer': SBool(z3.Bool('flag'))}
+        ghost = {'n_' + self.which: SInt(N, 'int'), 'max_hits': mh, 'nhits': nh, 'N': N, 'which': self.which}
+        for nm, t in (('N', N), ('max_hits', mh), ('MAX_HITS_OKTA0', max0), ('MAX_HOLES_OKTA8', max8)):
+            ctx.extractors[nm] = (lambda m, t=t: smt.z3val_to_py(m.eval(t, model_completion=True)))
+        ctx.extractors['nhits'] = lambda m: [smt.z3val_to_py(m.eval(nh[j], model_completion=True))
+                                             for j in range(min(8, smt.z3val_to_py(m.eval(N, model_completion=True))))]
+        return SChunk(CHUNK, fields, ghost)
+
+    def describe(self):
+        return f'chunk(which={self.which}) with ghost N, max_hits, nhits[]'
+
+
+class PdfAfterSetup(Spec):
+    """the table handed over by _setup_sligrolay_pdf: N rows of NaN objects, cluster_id (and ncomp for groups) set"""
+
+    def __init__(self, which, stage=0):
+        self.which, self.stage = which, stage
+
+    def make(self, name, ctx):
+        N = z3.Int('N')
+        t = _unset_table(N, self.which)
+        t.cols['cluster_id'] = fresh_column(N, 'cluster_id', 'int', 'npint')
+        if self.which == 'groups':
+            t.cols['ncomp'] = fresh_column(N, 'ncomp', 'int', 'int')
+        return t
+
+
+class CidsSpec(Spec):
+    def make(self, name, ctx):
+        N = z3.Int('N')
+        arr = z3.Array('cids', z3.IntSort(), z3.IntSort())
+        return SList('int', N, arr, None, 'npint')
+
+
+def _amount_post_cols(T, self):
+    g = self.ghost
+    N, mh, nh = g['N'], g['max_hits'], g['nhits']
+    max0, max8 = self.fields['_prms']['MAX_HITS_OKTA0'].t, self.fields['_prms']['MAX_HOLES_OKTA8'].t
+    okta, nhits, perc = T.col('okta'), T.col('n_hits'), T.col('perc')
+    return {
+        'n_hits': Forall(0, N, lambda i: nhits[i] == nh[i]),
+        'perc': Forall(0, N, lambda i: And(Not(_isnan(perc[i])), _rv(perc[i]) * z3.ToReal(mh) == 100 * z3.ToReal(nh[i]))),
+        # C03: 0 if count <= MAX_HITS_OKTA0, else 8 if missing <= MAX_HOLES_OKTA8, else WMO binning of the percentage
+        'okta': Forall(0, N, lambda i: okta[i] == okta_of(nh[i], mh, max0, max8)),
+        'okta_range': Forall(0, N, lambda i: And(okta[i] >= 0, okta[i] <= 8)),
+    }
+
+
+def _amount_result(name, ctx, self, which, pdf, cluster_ids):
+    """modular use: the same table object comes back with n_hits / perc / okta columns filled for every row;
+    okta cells hold Python ints"""
+    N = pdf.n
+    pdf.cols['n_hits'] = fresh_column(N, 'n_hits', 'int', 'npint')
+    pdf.cols['perc'] = fresh_column(N, 'perc', 'float', 'npfloat')
+    pdf.cols['okta'] = fresh_column(N, 'okta', 'int', 'int')
+    return pdf
+
+
+def _amount_ensures(result, self, which, pdf, cluster_ids, _ty=None):
+    out = dict(_amount_post_cols(result, self))
+    # every cell of the three columns holds a value; okta cells are Python ints (precondition of okta2code)
+    for c in ('n_hits', 'perc', 'okta'):
+        col = result.col(c)
+        if col.defd is not None:
+            out[f'defined.{c}'] = Forall(0, result.n, lambda i, col=col: col.defd(i))
+    out['okta_is_python_int'] = (getattr(result.col('okta'), 'ty', None) or _col_ty(result.col('okta'))) in ('int',)
+    out['same_table'] = result is pdf
+    return out
+
+
+def _col_ty(col):
+    from pyvc.values import pytype_tag
+    return pytype_tag(col.at(z3.Int('__probe_row')))
+
+
+def _hits_value(interp, fr):
+    """assumed meaning of the per-ceilometer counting expression: a list whose np.sum is nhits[ind]"""
+    self = fr.env['self']
+    ind = fr.env['ind']
+    return GhostHits(self.ghost['nhits'][ind.t])
+
+
+class GhostHits:
+    def __init__(self, total):
+        self.total = total
+
+
+def _np_sum(interp, args, kwargs):
+    (x,) = args
+    if isinstance(x, GhostHits):
+        return SInt(x.total, 'npint')
+    from pyvc.values import Unsupported
+    raise Unsupported('np.sum of this value')
+
+
+def cell(col, k, pred):
+    """cell k of the column holds a value satisfying pred"""
+    if col.dtype == 'unset':
+        return z3.BoolVal(False)
+    d = col.defd(k) if col.defd is not None else z3.BoolVal(True)
+    return And(d, pred(col[k]))
+
+
+def _amount_inv(E, i):
+    T, self = E.pdf, E.self
+    g = self.ghost
+    N, mh, nh = g['N'], g['max_hits'], g['nhits']
+    max0, max8 = self.fields['_prms']['MAX_HITS_OKTA0'].t, self.fields['_prms']['MAX_HOLES_OKTA8'].t
+    okta, nhits, perc = T.col('okta'), T.col('n_hits'), T.col('perc')
+    inv = {
+        'n_hits': Forall(0, i, lambda k: cell(nhits, k, lambda v: v == nh[k])),
+        'perc': Forall(0, i, lambda k: cell(perc, k, lambda v: And(Not(_isnan(v)), _rv(v) * z3.ToReal(mh) == 100 * z3.ToReal(nh[k])))),
+        'okta': Forall(0, i, lambda k: cell(okta, k, lambda v: And(v == okta_of(nh[k], mh, max0, max8), v >= 0, v <= 8))),
+        'rows': T.n == N,
+    }
+    return inv
+
+
+def register_metarize(reg):
+    from pyvc.lib import LIB, LIB_DOC
+    LIB['numpy.sum'] = _np_sum
+    LIB_DOC['numpy.sum'] = 'np.sum(list of per-ceilometer counts): their sum (numpy integer)'
+
+    reg.add(Contract(
+        f'{CHUNK}.max_hits_per_layer', properties=('C03',),
+        result=lambda name, ctx, self: SInt(self.ghost['max_hits'], 'int'),
+        notes=('ASSUMED (library meaning, bounded stand-in in C03): the number of distinct (ceilo, dt) measurements of the chunk, '
+               'a Python int >= 1 (construction refuses empty frames)')))
+
+    for which in WHICH:
+        pass
+    cases = [(w, {'self': ChunkForMetarize(w), 'which': Const(w), 'pdf': PdfAfterSetup(w), 'cluster_ids': CidsSpec()}) for w in WHICH]
+    reg.add(Contract(
+        f'{CHUNK}._calculate_cloud_amount', properties=('C03', 'C01'),
+        cases=cases,
+        result=_amount_result,
+        ensures=_amount_ensures,
+        loops={0: {'invariant': _amount_inv, 'modifies': ['pdf', 'ind', 'cid', 'in_sligrolay', 'hits_per_ceilo'],
+                   'modifies_cols': {'pdf': ['n_hits', 'perc', 'okta']},
+                   'col_models': {'n_hits': lambda n: fresh_column(n, 'n_hits', 'int', 'npint', with_defd=True),
+                                  'perc': lambda n: fresh_column(n, 'perc', 'float', 'npfloat', with_defd=True),
+                                  'okta': lambda n: fresh_column(n, 'okta', 'int', 'int', with_defd=True)}}},
+        expr_contracts={
+            'in_sligrolay': dict(source="self.data[which[:-1]+'_id'] == cid",
+                                 value=lambda interp, fr: Opaque('member mask'),
+                                 doc='boolean row mask of the members of set cid (only used inside the counting expression)'),
+            'hits_per_ceilo': dict(
+                source="""[len(np.unique(self.data[in_sligrolay * (self.data['ceilo'] == ceilo)]['dt'])) for ceilo in self.ceilos]""",
+                value=_hits_value,
+                doc=('per-ceilometer numbers of distinct time stamps among the members of set cid; their sum is the number of '
+                     'distinct (ceilometer, time) measurements contributing to the set (ghost nhits[ind]); ASSUMED library meaning '
+                     'of np.unique / boolean masks, checked by the bounded stand-in of C03')),
+        },
+        canaries={'okta_never_8': lambda result, self, which, pdf, cluster_ids: Forall(0, result.n, lambda i: result.col('okta')[i] != 8),
+                  'lt_instead_of_le': lambda result, self, which, pdf, cluster_ids: Forall(
+                      0, result.n, lambda i: Implies(self.ghost['nhits'][i] == self.fields['_prms']['MAX_HITS_OKTA0'].t,
+                                                     result.col('okta')[i] != 0))},
+    ))
+
+
+# ---- metarize ----------------------------------------------------------------------------------------
+
+def _setup_result(name, ctx, self, which='slices'):
+    N = self.ghost['N']
+    t = _unset_table(N, which)
+    t.cols['cluster_id'] = fresh_column(N, 'cluster_id', 'int', 'npint')
+    if which == 'groups':
+        nc = fresh_column(N, 'ncomp', 'int', 'int')
+        t.cols['ncomp'] = nc
+    cids = SList('int', N, z3.Array('cids', z3.IntSort(), z3.IntSort()), None, 'npint')
+    return (t, cids)
+
+
+def _base_result(name, ctx, self, which, pdf, cluster_ids):
+    pdf.cols['height_base'] = fresh_column(pdf.n, 'height_base', 'float', 'npfloat')
+    return pdf
+
+
+def _base_ensures(result, self, which, pdf, cluster_ids):
+    b = result.col('height_base')
+    # a base is the percentile of a non-empty selection of member heights: finite, and inside the range of the
+    # hit heights -- [0, 1e5) ft by the properties' own quantifier
+    return {'finite_in_range': Forall(0, result.n, lambda i: And(Not(_isnan(b[i])), _rv(b[i]) >= 0, _rv(b[i]) < 100000))}
+
+
+def _info_result(name, ctx, self, which, pdf, cluster_ids):
+    for c in ('height_mean', 'height_std', 'height_min', 'height_max', 'thickness', 'fluffiness'):
+        pdf.cols[c] = fresh_column(pdf.n, c, 'float', 'npfloat')
+    return pdf
+
+
+def _metarize_inv(E, i):
+    T = E.pdf
+    okta, base, code = T.col('okta'), T.col('height_base'), T.col('code')
+    return {'code': Forall(0, i, lambda k: cell(code, k, lambda v: v == code_text(okta[k], base[k])))}
+
+
+def _metarize_post(result, self, which):
+    T = self.fields['_' + which]
+    if not isinstance(T, STable):
+        return {'table_assigned': False}
+    g = self.ghost
+    N = g['N']
+    inv = table_inv(T, tag='post')
+    out = {'TI.' + k: v for k, v in inv.items()}
+    out['TI.rows'] = T.n == N           # one row per set id >= 0
+    out['TI.range_index'] = T.index_is_range
+    okta = T.col('okta')
+    nh, mh = g['nhits'], g['max_hits']
+    max0, max8 = self.fields['_prms']['MAX_HITS_OKTA0'].t, self.fields['_prms']['MAX_HOLES_OKTA8'].t
+    pi = getattr(T, 'ghost_perm', (None, None))[0]
+    if pi is not None:
+        # C03 through the sort: row i of the final table is set pi(i) and carries that set's okta
+        out['C03.okta_rule'] = Forall(0, N, lambda i: okta[i] == okta_of(nh[pi(i)], mh, max0, max8))
+        cid, cids = T.col('cluster_id'), g.get('cids')
+    return out
+
+
+def register_metarize2(reg):
+    for nm, res, ens, props in (
+            ('_setup_sligrolay_pdf', _setup_result, None, ('C05', 'C14', 'C01')),
+            ('_calculate_sligrolay_base_height', _base_result, _base_ensures, ('C04', 'C01')),
+            ('_add_sligrolay_information', _info_result, None, ('C04',))):
+        reg.add(Contract(f'{CHUNK}.{nm}', properties=props, result=res, ensures=ens,
+                         notes='ASSUMED at the call site in metarize (not yet verified against its body)'))
+    # raises of _setup_sligrolay_pdf in modular use
+    reg.get(f'{CHUNK}._setup_sligrolay_pdf').raises = {
+        'AmpycloudError': lambda self, which='slices': Or(self.ghost.get('n_' + which) is None,
+                                                          And(which == 'groups', self.fields['_layers'] is not None,
+                                                              self.ghost['N'] >= 1) if which == 'groups' else False)}
+
+    reg.add(Contract(
+        f'{CHUNK}.metarize', properties=('C01', 'C02', 'C03', 'C04', 'C05'),
+        cases=[(w, {'self': ChunkForMetarize(w), 'which': Const(w)}) for w in WHICH],
+        ensures=_metarize_post,
+        loops={0: {'invariant': _metarize_inv, 'modifies': ['pdf', 'ind', '_'], 'modifies_cols': {'pdf': ['code']},
+                   'col_models': {'code': lambda n: fresh_column(n, 'code', 'str', None, with_defd=True)},
+                   'assume_in_body': lambda E, i: reveal_code(E.pdf.col('okta')[i], E.pdf.col('height_base')[i])}},
+        canaries={'unsorted': lambda result, self, which: z3.BoolVal(False) if not isinstance(self.fields['_' + which], STable) else
+                  Forall(0, self.fields['_' + which].n, lambda i: Not(self.fields['_' + which].col('significant')[i]))},
+    ))
